@@ -1,4 +1,6 @@
 """C02 — generated structs mirror the schema: members, occurrence, types, names."""
+import re
+
 from engine.rulekit import fde
 from engine.rulekit import hir as Hh
 from engine.rulekit import og
@@ -174,21 +176,48 @@ def rule_occurrence(ck, F, X):
     live = scans.api_reachable(F.lib)
     sites = [s for s in og.field_summaries(F, "model::field::Field") if "try_from_node" in s[0] and s[0] in live]
     ck.floor("R2", "Field constructor sites", len(sites), 4)
-    # wrapper selection and attribute flag from the field emitter
-    wrap_nf = attr_nf = None
+    # wrapper selection and attribute flag from the field emitter: the member / attribute templates (one per branch in the
+    # canonical output grammar) and the conditions each is emitted under
+    member_vars, attr_vars = [], []
     for ev in X.events.get(T.FIELD_WRITER, []):
         if ev.kind != "emit":
             continue
         sk = ev.skeleton()
-        if sk.lstrip().startswith("pub {}: {}"):
-            wrap_nf = ev.holes()[1][0]
+        if re.match(r"^\s*pub \{\}: ", sk):
+            member_vars.append(ev)
         if "#[yaserde(" in sk:
-            for (nf, tr, ty) in ev.holes():
-                if nf[0] == "ifelse" and "attribute = true" in og.nf_str(nf):
-                    attr_nf = nf
-    if wrap_nf is None or attr_nf is None:
+            attr_vars.append(ev)
+    if not member_vars or not attr_vars:
         ck.undecided("R2", "field-emitter", "-", "the wrapper selection / attribute flag of the field emitter was not recognised")
         return
+
+    def select(variants, ev2, classify):
+        """classification of the templates whose (decidable) conditions hold under the evaluator's assignment"""
+        outs = set()
+        for v in variants:
+            ok = True
+            for c in v.ctx:
+                if c[0] != "alt":
+                    continue
+                try:
+                    val = ev2.ev(c[1])
+                except fde.Undecided:
+                    continue  # a condition over something else than the occurrence flags (e.g. the namespace): both branches considered
+                if bool(val) != c[2]:
+                    ok = False
+                    break
+            if ok:
+                outs.add(classify(v))
+        return outs
+
+    def wrapper_of(v):
+        m = re.match(r"^\s*pub \{\}: (Vec<|Option<)?", v.skeleton())
+        if m.group(1) is None and len(v.holes()) == 2 and v.holes()[1][0][0] in ("ifelse", "match", "call"):
+            return "?"  # the type text is computed by something the grammar could not open
+        return {"Vec<": "Vec", "Option<": "Option", None: "bare"}[m.group(1)]
+
+    def attr_flag_of(v):
+        return "attribute = true" in v.skeleton() or any("attribute = true" in og.nf_str(h[0]) for h in v.holes())
     self_ = ("param", "self")
     n_rows = 0
     bad = {}
@@ -221,13 +250,18 @@ def rule_occurrence(ck, F, X):
                     fv = {k: ev.ev(v) for k, v in flags.items()}
                     ev2 = fde.Evaluator({("field", self_, "is_vec"): fv["is_vec"], ("field", self_, "is_optional"): fv["is_optional"],
                                          ("field", self_, "is_attribute"): fv["is_attribute"], ("field", self_, "rust_type"): "T"})
-                    w = ev2.ev(wrap_nf)
-                    at = ev2.ev(attr_nf)
+                    ws = select(member_vars, ev2, wrapper_of)
+                    ats = select(attr_vars, ev2, attr_flag_of)
                 except fde.Undecided as u:
                     ck.undecided("R2", f"{label}:undecided", site, f"flag expression outside the evaluator's subset: {u}")
                     return
-                got = "Vec" if w.startswith("Vec<") else "Option" if w.startswith("Option<") else "bare"
-                got_attr = "attribute = true" in at
+                if len(ws) != 1 or len(ats) != 1 or "?" in ws:
+                    ck.undecided("R2", f"{label}:emitter-ambiguous", member_vars[0].site,
+                                 f"for one assignment of the occurrence flags the field emitter can write {sorted(ws)} / attribute flag {sorted(ats)}: "
+                                 f"the member template is not a function of (is_vec, is_optional, is_attribute)")
+                    return
+                got = list(ws)[0]
+                got_attr = list(ats)[0]
                 if label == "any":
                     want, want_attr = "Option", False   # xs:any is carried as an optional string body
                 else:
